@@ -149,13 +149,28 @@ class VCSAPI:
     def status(self, required_files: typ.Set[str]) -> typ.List[str]:
         """Get status lines."""
         status_output = self('status')
-        status_items  = [line.split(" ", 1) for line in status_output.splitlines()]
+        status_items  = [self._parse_status_line(line) for line in status_output.splitlines()]
 
         return [
             filepath.strip()
             for status, filepath in status_items
             if filepath.strip() in required_files or status != "??"
         ]
+
+    def _parse_status_line(self, line: str) -> typ.Tuple[str, str]:
+        if self.name != 'git':
+            status, filepath = line.split(" ", 1)
+            return (status, filepath)
+
+        # git status --porcelain: "XY PATH", where X and/or Y may be a space
+        # (e.g. " M file" for an unstaged modification).
+        status   = line[:2].strip()
+        filepath = line[3:]
+        if filepath.startswith('"') and filepath.endswith('"'):
+            # paths with special characters are quoted, with utf-8 bytes as octal escapes
+            path_data = filepath[1:-1].encode("latin-1", "backslashreplace")
+            filepath  = path_data.decode("unicode_escape").encode("latin-1").decode("utf-8")
+        return (status, filepath)
 
     def ls_tags(self) -> typ.List[str]:
         """List vcs tags on all branches."""
